@@ -87,9 +87,20 @@ structure Linearization (F : Nat) (g0 : Graph V) (h : List (Event V)) (S : List 
 
 def Linearizable (F : Nat) (g0 : Graph V) (h : List (Event V)) : Prop := ∃ S, Linearization F g0 h S
 
-/-- the executable witness check run by the driver on the order its (untrusted) search found -/
+/-- well-formed history: invocation ids are unique, every id responds at most once, and a response
+    comes after the invocation with its id -/
+def wfHist (h : List (Event V)) : Bool :=
+  decide (h.filterMap (fun e => match e with | .inv id _ _ => some id | .resp _ _ => none)).Nodup
+  && decide (h.filterMap (fun e => match e with | .resp id _ => some id | .inv _ _ _ => none)).Nodup
+  && h.zipIdx.all (fun (e, k) => match e with
+      | .resp id _ => (h.take k).any (fun e2 => match e2 with | .inv id2 _ _ => id2 == id | .resp _ _ => false)
+      | .inv _ _ _ => true)
+
+/-- the executable witness check run by the driver on the order its (untrusted) search found
+    (it also checks that the recorded history is well formed) -/
 def checkWitness (F : Nat) (g0 : Graph V) (h : List (Event V)) (S : List (LOp V)) : Bool :=
-  decide (S.map (·.id)).Nodup
+  wfHist h
+  && decide (S.map (·.id)).Nodup
   && S.all (fun o => decide (o.invE ∈ h))
   && h.all (fun e => match e with
       | .resp id r => S.any (fun o => decide (o.id = id ∧ o.resp = r))
